@@ -258,6 +258,8 @@ type Finding struct {
 	Property    string `json:"property"`
 	Oracle      string `json:"oracle"`
 	Match       string `json:"match"` // regexp over the violation message
+	RaceBothStacks string `json:"race_both_stacks,omitempty"` // data races: regexp that every access stack of the report must contain
+	RaceTopFrame   string `json:"race_top_frame,omitempty"`   // data races: regexp that the innermost non-runtime frame of one access must match
 	What        string `json:"what"`
 	Status      string `json:"status"` // known | fixed
 	Commit      string `json:"commit,omitempty"`
@@ -280,11 +282,85 @@ func loadFindings() []Finding {
 	return f.Findings
 }
 
+// raceReport cuts the first data-race report out of a worker's stderr.
+func raceReport(stderr string) string {
+	i := strings.Index(stderr, "WARNING: DATA RACE")
+	if i < 0 {
+		return stderr
+	}
+	rep := stderr[i:]
+	if j := strings.Index(rep, "=================="); j > 0 {
+		rep = rep[:j]
+	}
+	if len(rep) > 6000 {
+		rep = rep[:6000]
+	}
+	return rep
+}
+
+// raceBothStacks reports whether every access of a race report (the blocks
+// starting "... by goroutine N:") runs underneath a frame matching re; the
+// "Goroutine N created at" blocks are not accesses.
+func raceBothStacks(report string, re *regexp.Regexp) bool {
+	report = strings.TrimPrefix(strings.TrimSpace(report), "WARNING: DATA RACE\n")
+	blocks := strings.Split(report, "\n\n")
+	n := 0
+	for _, b := range blocks {
+		first := strings.SplitN(strings.TrimSpace(b), "\n", 2)[0]
+		if !strings.Contains(first, " by goroutine ") && !strings.Contains(first, " by main goroutine") {
+			continue
+		}
+		n++
+		if !re.MatchString(b) {
+			return false
+		}
+	}
+	return n >= 2
+}
+
+// raceTopFrame reports whether the innermost frame outside runtime/sync of
+// at least one access block of a race report matches re.
+func raceTopFrame(report string, re *regexp.Regexp) bool {
+	report = strings.TrimPrefix(strings.TrimSpace(report), "WARNING: DATA RACE\n")
+	for _, b := range strings.Split(report, "\n\n") {
+		lines := strings.Split(strings.TrimSpace(b), "\n")
+		if len(lines) < 2 || !strings.Contains(lines[0], " by goroutine ") {
+			continue
+		}
+		for _, l := range lines[1:] {
+			l = strings.TrimSpace(l)
+			if l == "" || strings.HasPrefix(l, "/") || strings.HasPrefix(l, "<autogenerated>") {
+				continue // file:line lines
+			}
+			if strings.HasPrefix(l, "runtime.") || strings.HasPrefix(l, "sync/atomic.") || strings.HasPrefix(l, "sync.") {
+				continue
+			}
+			if re.MatchString(l) {
+				return true
+			}
+			break // only the innermost user frame counts
+		}
+	}
+	return false
+}
+
 func matchFinding(fs []Finding, prop string, v *Violation) *Finding {
 	for i := range fs {
 		f := &fs[i]
 		if f.Status != "known" || f.Property != prop || f.Oracle != v.Oracle {
 			continue
+		}
+		if f.RaceTopFrame != "" {
+			re, err := regexp.Compile(f.RaceTopFrame)
+			if err != nil || !raceTopFrame(v.Msg, re) {
+				continue
+			}
+		}
+		if f.RaceBothStacks != "" {
+			re, err := regexp.Compile(f.RaceBothStacks)
+			if err != nil || !raceBothStacks(v.Msg, re) {
+				continue
+			}
 		}
 		if f.Match != "" {
 			if ok, _ := regexp.MatchString(f.Match, v.Msg); !ok {
@@ -492,6 +568,24 @@ func sweep(bin string, def *checkDef, check, tier string, baseSeed uint64, cfg t
 				}
 				mu.Lock()
 				switch {
+				case r.died && strings.Contains(r.stderr, "WARNING: DATA RACE"):
+					// a race report is a verdict by itself (the detector has no
+					// false positives; concurrent windows need not replay)
+					r.Violation = &Violation{Oracle: "data-race", Msg: raceReport(r.stderr)}
+					r.Seed, r.Check = job.Seed, jcheck
+					if f := matchFinding(findings, def.property, r.Violation); f != nil {
+						if _, ok := known[f.What]; !ok {
+							known[f.What] = r
+						}
+						a.runs++
+						a.probes["known-race-reported"]++
+					} else {
+						a.violations++
+						if firstViol == nil {
+							firstViol = r
+						}
+						stop = true
+					}
 				case r.died:
 					// the process died (SIGSEGV, fatal error, race report): this is
 					// a property verdict only if it reproduces in a fresh worker
